@@ -4,7 +4,11 @@ import common, zoo as zoolib, filelevel
 from common import Pair, proof_stage, rebuild_tools, build_pqh, build_zoo, Lock, TRUSTED_BASE
 
 MODULE = "PQ.Props.C12"
-THEOREMS = []
+THEOREMS = ["PQ.C12." + t for t in (
+    "null_count_exact", "null_count_exact_striped", "null_count_reported", "null_count_required", "bounds_sound", "bounds_not_nan",
+    "bounds_sound_key", "bounds_sound_i32", "bounds_sound_i64", "bounds_sound_u32", "bounds_sound_u64", "bounds_sound_f32", "bounds_sound_f64",
+    "nan_ignored", "bounds_sound_str", "absent_if_empty", "bool_always_absent", "present_iff_value", "required_numeric_always_present",
+    "minmax_attained_or_init", "page_stats_sound")]
 
 
 def build_record(z, choose):
